@@ -291,7 +291,13 @@ func (vc *VC) zeroOfSort(s *Sort, t types.Type) Term {
 		}
 		return mk(app(si.ctor, as...), s)
 	case SOpaque:
-		return vc.declFresh("zero!"+s.Name, s)
+		// one nil constant per opaque sort (function values, channels, ...)
+		name := smtIdent("nil!" + s.Name)
+		if !vc.uf[name] {
+			vc.uf[name] = true
+			vc.constDecls = append(vc.constDecls, fmt.Sprintf("(declare-const %s %s)", name, s.Name))
+		}
+		return mk(name, s)
 	}
 	return vc.declFresh("zero", s)
 }
